@@ -604,6 +604,10 @@ func runLife(ops []string, tlsPOP3 bool) []string {
 			tc.SetDeadline(time.Time{})
 			c.conn = tc
 			c.r = bufio.NewReader(tc)
+			// The client's handshake can be over before the server's handler has returned (and has set the
+			// server's TLS state): one round trip on the new connection makes the rest of the schedule
+			// independent of that race (NOOP is out of sequence in AUTHORIZATION state: one -ERR line).
+			c.cmd("NOOP")
 			outs = append(outs, "+OK")
 		case o[0] == 'b':
 			c := cs[vh.AtoI(f[0][1:])]
